@@ -122,7 +122,8 @@ Variable macq : N -> N -> N -> N -> N -> N -> option (list N).
 Variable t : topology.
 Variable now : N.
 
-Fixpoint forward_fuel (fuel : nat) (l : loc) (p : pkt) : list tstep * final :=
+(** the walk; every step is recorded together with the packet the router sent *)
+Fixpoint run_fuel (fuel : nat) (l : loc) (p : pkt) : list (tstep * pkt) * final :=
   match fuel with
   | O => ([], OutOfFuel)
   | S fuel' =>
@@ -131,27 +132,27 @@ Fixpoint forward_fuel (fuel : nat) (l : loc) (p : pkt) : list tstep * final :=
     | Some a =>
       match process_scion (macq (a_key a)) (cfg_of a (l_rtr l)) now (l_ing l) p with
       | Forward e out (Some d) =>
-        ([obs_step l e false out], Delivered (a_ia a) (l_rtr l) (fst d) (snd d))
+        ([(obs_step l e false out, out)], Delivered (a_ia a) (l_rtr l) (fst d) (snd d))
       | Forward e out None =>
         match find_nif (a_ifs a) e with
-        | None => ([obs_step l e false out], NoRoute (a_ia a) (l_rtr l))
+        | None => ([(obs_step l e false out, out)], NoRoute (a_ia a) (l_rtr l))
         | Some f =>
           if ni_owner f =? l_rtr l then
             match find_as t (ni_nbr f) with
-            | None => ([obs_step l e true out], NoRoute (a_ia a) (l_rtr l))
+            | None => ([(obs_step l e true out, out)], NoRoute (a_ia a) (l_rtr l))
             | Some b =>
               match find_nif (a_ifs b) (ni_remote f) with
-              | None => ([obs_step l e true out], NoRoute (a_ia a) (l_rtr l))
+              | None => ([(obs_step l e true out, out)], NoRoute (a_ia a) (l_rtr l))
               | Some g =>
                 let '(tr, fin) :=
-                  forward_fuel fuel' (mkLoc (a_ia b) (ni_owner g) (InExt (ni_remote f))) out in
-                (obs_step l e true out :: tr, fin)
+                  run_fuel fuel' (mkLoc (a_ia b) (ni_owner g) (InExt (ni_remote f))) out in
+                ((obs_step l e true out, out) :: tr, fin)
               end
             end
           else
             let '(tr, fin) :=
-              forward_fuel fuel' (mkLoc (a_ia a) (ni_owner f) (InSib (l_rtr l + 1))) out in
-            (obs_step l e false out :: tr, fin)
+              run_fuel fuel' (mkLoc (a_ia a) (ni_owner f) (InSib (l_rtr l + 1))) out in
+            ((obs_step l e false out, out) :: tr, fin)
         end
       | MacMiss => ([], FMacMiss)
       | BadInput => ([], FBadInput)
@@ -163,7 +164,17 @@ Fixpoint forward_fuel (fuel : nat) (l : loc) (p : pkt) : list tstep * final :=
 (** at most two routers per AS handle a packet, and every AS consumes a hop field *)
 Definition fuel_for (p : pkt) : nat := 2 * N.to_nat (num_hops p) + 2.
 
-Definition forward (l : loc) (p : pkt) : list tstep * final := forward_fuel (fuel_for p) l p.
+Definition run (l : loc) (p : pkt) : list (tstep * pkt) * final := run_fuel (fuel_for p) l p.
+
+Definition forward (l : loc) (p : pkt) : list tstep * final :=
+  (map fst (fst (run l p)), snd (run l p)).
+
+(** the packet handed to the destination host *)
+Definition delivered_pkt (w : list (tstep * pkt) * final) : option pkt :=
+  match snd w with
+  | Delivered _ _ _ _ => option_map snd (nth_error (fst w) (length (fst w) - 1))
+  | _ => None
+  end.
 
 End WithMac.
 
